@@ -87,7 +87,7 @@ func main() {
 	}
 	c := core.New("C06", "exploration")
 	c.SetRule("cases: (seq) one seeded sequential history of 30-200 operations over a FanOutQueue with 1-3 consumer groups; " +
-		"(directed) one scripted prefix (stop-group/sync/reopen, stop-group/sync/re-create, late group creation, stop of a group that is ahead, SetConsumedSeq or SetAppendedSeq from another goroutine while the consumer is parked inside Consume) plus a random tail; " +
+		"(directed) one scripted prefix (stop-group/sync/reopen, stop-group/sync/re-create, late group creation, stop of a group that is ahead, SetConsumedSeq or SetAppendedSeq from another goroutine while the consumer is parked inside Consume, creation of a group overlapped by ack+Sync+GC of another group at the new group's first meta page store) plus a random tail; " +
 		"(big) one history with 40-60 MiB messages and interleaved acks/sync/gc/reopen; (indexroll) one history over >262144 messages; " +
 		"(conc) one concurrent run of producer, consumer(s), acker(s), Sync/GC ticker and group churner. " +
 		"Non-trivial = sequential history in which a stop-group or a reopen was followed by a Sync that the history then observed " +
@@ -228,7 +228,7 @@ func main() {
 	// the oracles need their events: say so instead of passing on an empty observation
 	for _, need := range []string{"op.consume", "op.ack.valid", "op.ack.stale", "op.ack.future", "op.sync", "op.gc", "op.reopen",
 		"op.stop-group", "op.create-group", "op.set-consumed.in-range", "op.set-consumed.out-of-range", "op.set-appended",
-		"op.consume-wait.put", "op.consume-wait.set-consumed", "op.consume-wait.set-appended", "consumer_parked_in_consume_before_action",
+		"op.create-while-sync", "conc.created_group_consumed", "op.consume-wait.put", "op.consume-wait.set-consumed", "op.consume-wait.set-appended", "consumer_parked_in_consume_before_action",
 		"queue_ack_moves_observed", "gc_data_pages_removed", "conc.consumed", "conc.acks.valid"} {
 		if c.Counter(need) == 0 {
 			c.Inconclusive("no event of kind %q was observed", need)
